@@ -304,6 +304,29 @@ def local_parts(t, tz):
     return loc.weekday(), loc.hour * 60 + loc.minute
 
 
+def own_or_inherited_hours(ap, rnode):
+    """the hours table of a leaf resource: its own (inline or shift), else that of the nearest enclosing group that
+    declares one; None when neither does (then the project's hours / the built-in default apply)"""
+    if rnode.get("shift"):
+        return ap["shifts"][rnode["shift"]]
+    if rnode.get("hours") is not None:
+        return rnode["hours"]
+    cache = ap.setdefault("_inh_hours", {})
+    if rnode["id"] not in cache:
+        found = None
+
+        def rec(nodes, inherited):
+            nonlocal found
+            for n in nodes:
+                mine = ap["shifts"][n["shift"]] if n.get("shift") else (n["hours"] if n.get("hours") is not None else inherited)
+                if n["id"] == rnode["id"] and "kids" not in n:
+                    found = inherited
+                rec(n.get("kids", []), mine)
+        rec(ap["resources"], None)
+        cache[rnode["id"]] = found
+    return cache[rnode["id"]]
+
+
 def working(ap, rnode, t):
     """is instant t working time for the leaf resource (declared hours, leaves, vacations, holidays)"""
     for (a, b) in ap.get("vac", []):
@@ -321,11 +344,7 @@ def working(ap, rnode, t):
     for (a, mins, _txt) in rnode.get("bookings", []):       # a blocking booking: calendar time from its start
         if a <= t < a + mins * 60:
             return False
-    tbl = None
-    if rnode.get("shift"):
-        tbl = ap["shifts"][rnode["shift"]]
-    elif rnode.get("hours") is not None:
-        tbl = rnode["hours"]
+    tbl = own_or_inherited_hours(ap, rnode)
     if tbl is not None:
         wd, m = local_parts(t, rnode.get("tz"))
         return hours_spec(tbl, wd, m)
@@ -340,7 +359,7 @@ def aligned(ap):
     G = ap.get("G", 3600)
     if ap["start"] % G:
         return False
-    tabs = list(ap.get("shifts", {}).values()) + [n["hours"] for _, n in walk(ap["resources"]) if n.get("hours") is not None]
+    tabs = list(ap.get("shifts", {}).values()) + [n["hours"] for _, n in walk(ap["resources"]) if n.get("hours") is not None]   # (walk visits groups too)
     if ap.get("phours") is not None:
         tabs.append(ap["phours"])
     for tbl in tabs:
@@ -458,7 +477,7 @@ def encode_core(ap, obs_end):
         else:
             # the calendar is computed INSIDE the Coq model (Model/Calendar.v) from the hours table and
             # the blocked intervals
-            tbl = ap["shifts"][n["shift"]] if n.get("shift") else n.get("hours")
+            tbl = own_or_inherited_hours(ap, n)
             if tbl is None:
                 tbl = ap.get("phours")          # hours declared in the project header
             offs = [day_interval(a, b) for a, b in ap.get("vac", []) + ap.get("gleaves", [])]
@@ -502,6 +521,8 @@ def encode_core(ap, obs_end):
         leaf = "kids" not in n
         if backward and (n.get("start") is not None or n.get("sched")):
             raise NotCore("start / task-level mode in a backward project")
+        if not backward and n.get("end") is not None and n.get("effort") is None:
+            raise NotCore("task or container given by its dates (start and end, no effort)")
         kids = [tnum[p + (k["id"],)] for k in n.get("kids", [])]
         lvs = [tnum[x] for x in leaves_under(n, p)]
         prio = 500
